@@ -44,7 +44,7 @@ PROPS["C11"] = {
             "TestC11CosetList": LIST(),
             "TestC11Uniform": T(4000, 200000),
             "TestC11UniformList": LIST(),
-            "TestC11Ops": T(800, 20000, shards={"quick": 8, "thorough": 16}),
+            "TestC11Ops": T(600, 20000, shards={"quick": 8, "thorough": 16}),
             "TestC11ManyTerms": T(24, 1000, shards={"quick": 2, "thorough": 8}),
             "TestC11Constants": LIST(),
             # thorough only: Go native fuzzing (no coverage guidance in a -c binary; mutation from the RFC/boundary seeds)
